@@ -181,3 +181,292 @@ theorem good_frag (fname : Str → Str) (vname : J → Str) : ∀ s : S, frag s 
   | .nullable (.nullable _), h => by simp [frag] at h
 
 end Oas3.Codec
+
+/-! ### maps (`additionalProperties: S` / `HashMap<String, T>`): the judge lifts through them on documents whose objects
+have distinct keys (what a JSON parser delivers) -/
+namespace Oas3.Codec
+
+mutual
+/-- every object of the document, at any depth, has distinct keys -/
+def J.wf : J → Bool
+  | .arr xs => wfList xs
+  | .obj kvs => nodupKeys (kvs.map (·.1)) && wfKvs kvs
+  | _ => true
+def wfList : List J → Bool
+  | [] => true
+  | x :: r => x.wf && wfList r
+def wfKvs : List (Str × J) → Bool
+  | [] => true
+  | (_, v) :: r => v.wf && wfKvs r
+def nodupKeys : List Str → Bool
+  | [] => true
+  | k :: r => !r.contains k && nodupKeys r
+end
+
+/-- "the property holds for `s` on every WELL-FORMED document outside the characterised classes" -/
+def GoodWf (fname : Str → Str) (vname : J → Str) (s : S) : Prop :=
+  ∀ doc, doc.wf = true → classes fname vname s doc = [] → judge s (typeOf fname vname s) doc = true
+
+theorem goodWf_of_good (fname : Str → Str) (vname : J → Str) (s : S) (h : Good fname vname s) : GoodWf fname vname s :=
+  fun doc _ hc => h doc hc
+
+theorem wfKvs_mem : ∀ (kvs : List (Str × J)), wfKvs kvs = true → ∀ p ∈ kvs, p.2.wf = true
+  | [], _, p, hp => by cases hp
+  | (k, v) :: r, h, p, hp => by
+    simp only [wfKvs, Bool.and_eq_true] at h
+    rcases List.mem_cons.mp hp with rfl | hp'
+    · exact h.1
+    · exact wfKvs_mem r h.2 p hp'
+
+theorem lookup_cons_self (k : Str) (v : J) (r : List (Str × J)) : lookup k ((k, v) :: r) = some v := by
+  simp [lookup]
+
+theorem lookup_cons_ne (k k' : Str) (v : J) (r : List (Str × J)) (h : k ≠ k') : lookup k' ((k, v) :: r) = lookup k' r := by
+  simp [lookup, h]
+
+/-- `mapVals` over an object with distinct keys: if every value is mapped to something related by `g` and satisfying `v`,
+the result has the same keys, all values satisfy `v`, and the member-wise comparison holds -/
+theorem mapVals_good (f : J → Option J) (v : J → Bool) (g : J → J → Bool) :
+    ∀ kvs : List (Str × J), nodupKeys (kvs.map (·.1)) = true →
+      (∀ p ∈ kvs, ∃ o, f p.2 = some o ∧ v o = true ∧ g p.2 o = true) →
+      ∃ ys, mapVals f kvs = some ys ∧ ys.map (·.1) = kvs.map (·.1) ∧ (ys.all fun kv => v kv.2) = true ∧
+        (kvs.all fun kv => match lookup kv.1 ys with | some w => g kv.2 w | none => false) = true := by
+  intro kvs
+  induction kvs with
+  | nil => intro _ _; exact ⟨[], rfl, rfl, rfl, rfl⟩
+  | cons p r ih =>
+    obtain ⟨k, x⟩ := p
+    intro hn h
+    simp only [List.map_cons, nodupKeys, Bool.and_eq_true, Bool.not_eq_true'] at hn
+    obtain ⟨o, ho, hv, hg⟩ := h (k, x) (List.mem_cons_self ..)
+    obtain ⟨ys, hys, hk, hvs, hgs⟩ := ih hn.2 (fun q hq => h q (List.mem_cons_of_mem _ hq))
+    refine ⟨(k, o) :: ys, ?_, ?_, ?_, ?_⟩
+    · simp [mapVals, ho, hys]
+    · simp [hk]
+    · simp [hv, hvs]
+    · simp only [List.all_cons, lookup_cons_self, hg, Bool.true_and]
+      rw [List.all_eq_true] at hgs ⊢
+      intro q hq
+      have hne : k ≠ q.1 := by
+        intro e
+        have : q.1 ∈ r.map (·.1) := List.mem_map.mpr ⟨q, hq, rfl⟩
+        rw [← e] at this
+        have hc : (r.map (·.1)).contains k = true := by simpa using this
+        rw [hn.1] at hc; cases hc
+      rw [lookup_cons_ne k q.1 o ys hne]
+      exact hgs q hq
+
+theorem mapVals_none (f : J → Option J) : ∀ kvs : List (Str × J), (∃ p ∈ kvs, f p.2 = none) → mapVals f kvs = none := by
+  intro kvs
+  induction kvs with
+  | nil => intro ⟨p, hp, _⟩; cases hp
+  | cons q r ih =>
+    obtain ⟨k, x⟩ := q
+    intro ⟨p, hp, hn⟩
+    rcases List.mem_cons.mp hp with rfl | hp'
+    · simp [mapVals, hn]
+    · have := ih ⟨p, hp', hn⟩
+      simp only [mapVals, this]
+      cases f x <;> rfl
+
+theorem hasKey_of_keys (ys xs : List (Str × J)) (hk : ys.map (·.1) = xs.map (·.1)) :
+    (ys.all fun kv => hasKey kv.1 xs) = true := by
+  rw [List.all_eq_true]
+  intro q hq
+  have hm : q.1 ∈ xs.map (·.1) := by rw [← hk]; exact List.mem_map.mpr ⟨q, hq, rfl⟩
+  obtain ⟨p, hp, hpe⟩ := List.mem_map.mp hm
+  unfold hasKey
+  clear hk hq hm
+  induction xs with
+  | nil => cases hp
+  | cons a t ih =>
+    obtain ⟨ka, va⟩ := a
+    by_cases he : ka = q.1
+    · simp [lookup, he]
+    · rcases List.mem_cons.mp hp with rfl | hp'
+      · exact absurd hpe he
+      · simp only [lookup, beq_iff_eq, he, if_false]
+        exact ih hp'
+
+/-- the judge lifts through `additionalProperties: S` typed `HashMap<String, T>`, whatever the value schema is -/
+theorem goodWf_map (fname : Str → Str) (vname : J → Str) (s : S) (hs : GoodWf fname vname s) :
+    GoodWf fname vname (.map s) := by
+  intro doc hwf hc
+  cases doc with
+  | obj kvs =>
+    simp only [J.wf, Bool.and_eq_true] at hwf
+    have hcl : ∀ p ∈ kvs, classes fname vname s p.2 = [] := by
+      simp only [classes] at hc
+      exact fun p hp => (List.flatMap_eq_nil_iff.mp hc) p hp
+    have hj : ∀ p ∈ kvs, judge s (typeOf fname vname s) p.2 = true :=
+      fun p hp => hs p.2 (wfKvs_mem kvs hwf.2 p hp) (hcl p hp)
+    simp only [judge, judgeRun, typeOf, valid, rt, same, Bool.and_eq_true]
+    constructor
+    · by_cases hv : (kvs.all fun kv => valid false s kv.2) = true
+      · simp only [hv, if_true]
+        have : ∀ p ∈ kvs, ∃ o, rt (typeOf fname vname s) p.2 = some o ∧ valid false s o = true ∧ same s p.2 o = true := by
+          intro p hp
+          have hvx : valid false s p.2 = true := (List.all_eq_true.mp hv) p hp
+          have := hj p hp
+          simp only [judge, judgeRun, hvx, if_true, Bool.and_eq_true] at this
+          cases hr : rt (typeOf fname vname s) p.2 with
+          | none => simp [hr] at this
+          | some o =>
+            simp only [hr, Bool.and_eq_true] at this
+            exact ⟨o, rfl, this.1.1, this.1.2⟩
+        obtain ⟨ys, hys, hk, hvs, hgs⟩ := mapVals_good (fun x => rt (typeOf fname vname s) x) (fun x => valid false s x) (fun x y => same s x y) kvs hwf.1 this
+        have hsame : sameKvs (fun x y => same s x y) kvs ys = true := by
+          unfold sameKvs
+          rw [Bool.and_eq_true]
+          exact ⟨hgs, hasKey_of_keys ys kvs hk⟩
+        rw [hys]
+        simp only [Option.map_some, valid, same, Bool.and_eq_true]
+        exact ⟨hvs, hsame⟩
+      · simp [hv]
+    · by_cases hl : (kvs.all fun kv => valid true s kv.2) = true
+      · simp [hl]
+      · simp only [hl]
+        have : ∃ p ∈ kvs, rt (typeOf fname vname s) p.2 = none := by
+          have : ∃ p ∈ kvs, valid true s p.2 = false := by
+            simpa [List.all_eq_true] using hl
+          obtain ⟨p, hp, hvx⟩ := this
+          refine ⟨p, hp, ?_⟩
+          have := hj p hp
+          simp only [judge, judgeRun, hvx, Bool.and_eq_true] at this
+          simpa using this.2
+        simp [mapVals_none _ kvs this]
+  | _ => simp [judge, judgeRun, valid, rt, typeOf]
+
+theorem wfList_mem : ∀ (xs : List J), wfList xs = true → ∀ x ∈ xs, x.wf = true
+  | [], _, x, hx => by cases hx
+  | y :: r, h, x, hx => by
+    simp only [wfList, Bool.and_eq_true] at h
+    rcases List.mem_cons.mp hx with rfl | hx'
+    · exact h.1
+    · exact wfList_mem r h.2 x hx'
+
+/-- arrays, for well-formed documents (same argument as `good_arr`) -/
+theorem goodWf_arr (fname : Str → Str) (vname : J → Str) (s : S) (hs : GoodWf fname vname s) :
+    GoodWf fname vname (.arr s) := by
+  intro doc hwf hc
+  cases doc with
+  | arr xs =>
+    simp only [J.wf] at hwf
+    have hcl : ∀ x ∈ xs, classes fname vname s x = [] := by
+      simp only [classes] at hc
+      exact fun x hx => (List.flatMap_eq_nil_iff.mp hc) x hx
+    have hj : ∀ x ∈ xs, judge s (typeOf fname vname s) x = true := fun x hx => hs x (wfList_mem xs hwf x hx) (hcl x hx)
+    simp only [judge, judgeRun, typeOf, valid, rt, same, Bool.and_eq_true]
+    constructor
+    · by_cases hv : (xs.all fun x => valid false s x) = true
+      · simp only [hv, if_true]
+        have : ∀ x ∈ xs, ∃ o, rt (typeOf fname vname s) x = some o ∧ valid false s o = true ∧ same s x o = true := by
+          intro x hx
+          have hvx : valid false s x = true := (List.all_eq_true.mp hv) x hx
+          have := hj x hx
+          simp only [judge, judgeRun, hvx, if_true, Bool.and_eq_true] at this
+          cases hr : rt (typeOf fname vname s) x with
+          | none => simp [hr] at this
+          | some o =>
+            simp only [hr, Bool.and_eq_true] at this
+            exact ⟨o, rfl, this.1.1, this.1.2⟩
+        obtain ⟨os, hos, hvs, hgs⟩ := mapAll_good (fun x => rt (typeOf fname vname s) x) (fun x => valid false s x) (fun x y => same s x y) xs this
+        simp [hos, valid, same, hvs, hgs]
+      · simp [hv]
+    · by_cases hl : (xs.all fun x => valid true s x) = true
+      · simp [hl]
+      · simp only [hl]
+        have : ∃ x ∈ xs, rt (typeOf fname vname s) x = none := by
+          have : ∃ x ∈ xs, valid true s x = false := by
+            simpa [List.all_eq_true] using hl
+          obtain ⟨x, hx, hvx⟩ := this
+          refine ⟨x, hx, ?_⟩
+          have := hj x hx
+          simp only [judge, judgeRun, hvx, Bool.and_eq_true] at this
+          simpa using this.2
+        simp [mapAll_none _ xs this]
+  | _ => simp [judge, judgeRun, valid, rt, typeOf]
+
+/-- nullable wrapper, for well-formed documents (same argument as `good_nullable`) -/
+theorem goodWf_nullable (fname : Str → Str) (vname : J → Str) (s : S) (hs : GoodWf fname vname s)
+    (hn : valid false s .null = false) (ht : (typeOf fname vname s).isOption = false) :
+    GoodWf fname vname (.nullable s) := by
+  intro doc hwf hc
+  have hty : typeOf fname vname (.nullable s) = .option (typeOf fname vname s) := by
+    simp [typeOf, Ty.withOption, ht]
+  by_cases hnull : doc.isNull = true
+  · cases doc <;> simp [J.isNull] at hnull
+    simp [judge, judgeRun, hty, valid, rt, same, J.isNull]
+  · have hnf : doc.isNull = false := by simpa using hnull
+    have hc' : classes fname vname s doc = [] := by simpa [classes, hnf] using hc
+    have hj := hs doc hwf hc'
+    simp only [judge, judgeRun, Bool.and_eq_true] at hj
+    simp only [judge, judgeRun, hty, valid, rt, same, hnf, Bool.false_or, Bool.and_eq_true, if_false, Bool.false_eq_true]
+    refine ⟨?_, hj.2⟩
+    by_cases hv : valid false s doc = true
+    · simp only [hv, if_true] at hj ⊢
+      cases hr : rt (typeOf fname vname s) doc with
+      | none => simp [hr] at hj
+      | some o =>
+        simp only [hr, Bool.and_eq_true] at hj ⊢
+        have hon : o.isNull = false := by
+          cases o <;> simp [J.isNull]
+          simp [hn] at hj
+        simp [hj.1.1, hj.1.2, hon]
+    · simp [hv]
+
+/-- the container fragment: scalars (every integer width), and arrays, string-keyed maps and nullable wrappers over it, nested
+to any depth (a nullable wrapper not directly around another one) -/
+def frag2 : S → Bool
+  | .str => true
+  | .int _ => true
+  | .num _ => true
+  | .bool => true
+  | .arr s => frag2 s
+  | .map s => frag2 s
+  | .nullable s => frag2 s && !s.isNullable
+  | _ => false
+
+theorem frag2_null_invalid : ∀ s : S, frag2 s = true → s.isNullable = false → valid false s .null = false
+  | .str, _, _ => by simp [valid]
+  | .int _, _, _ => by simp [valid]
+  | .num _, _, _ => by simp [valid]
+  | .bool, _, _ => by simp [valid]
+  | .arr _, _, _ => by simp [valid]
+  | .map _, _, _ => by simp [valid]
+  | .nullable _, _, h => by simp [S.isNullable] at h
+  | .enum _, h, _ => by simp [frag2] at h
+  | .obj _ _, h, _ => by simp [frag2] at h
+  | .strNum _, h, _ => by simp [frag2] at h
+  | .strFloat _, h, _ => by simp [frag2] at h
+
+theorem frag2_not_option (fname : Str → Str) (vname : J → Str) : ∀ s : S, frag2 s = true → s.isNullable = false →
+    (typeOf fname vname s).isOption = false
+  | .str, _, _ => by simp [typeOf, Ty.isOption]
+  | .int _, _, _ => by simp [typeOf, Ty.isOption]
+  | .num _, _, _ => by simp [typeOf, Ty.isOption]
+  | .bool, _, _ => by simp [typeOf, Ty.isOption]
+  | .arr _, _, _ => by simp [typeOf, Ty.isOption]
+  | .map _, _, _ => by simp [typeOf, Ty.isOption]
+  | .nullable _, _, h => by simp [S.isNullable] at h
+  | .enum _, h, _ => by simp [frag2] at h
+  | .obj _ _, h, _ => by simp [frag2] at h
+  | .strNum _, h, _ => by simp [frag2] at h
+  | .strFloat _, h, _ => by simp [frag2] at h
+
+theorem goodWf_frag2 (fname : Str → Str) (vname : J → Str) : ∀ s : S, frag2 s = true → GoodWf fname vname s
+  | .str, _ => goodWf_of_good _ _ _ (good_str fname vname)
+  | .int f, _ => goodWf_of_good _ _ _ (good_int fname vname f)
+  | .num f, _ => goodWf_of_good _ _ _ (good_num fname vname f)
+  | .bool, _ => goodWf_of_good _ _ _ (good_bool fname vname)
+  | .arr s, h => goodWf_arr fname vname s (goodWf_frag2 fname vname s (by simpa [frag2] using h))
+  | .map s, h => goodWf_map fname vname s (goodWf_frag2 fname vname s (by simpa [frag2] using h))
+  | .nullable s, h => by
+    simp only [frag2, Bool.and_eq_true, Bool.not_eq_true'] at h
+    exact goodWf_nullable fname vname s (goodWf_frag2 fname vname s h.1) (frag2_null_invalid s h.1 h.2) (frag2_not_option fname vname s h.1 h.2)
+  | .enum _, h => by simp [frag2] at h
+  | .obj _ _, h => by simp [frag2] at h
+  | .strNum _, h => by simp [frag2] at h
+  | .strFloat _, h => by simp [frag2] at h
+
+end Oas3.Codec
